@@ -359,7 +359,7 @@ def w(ctx, rep, prog):
         raise core.Incomplete('generate_types (cli) not found')
     site = {'file': prog.bodies[gt[0]]['file'], 'line': prog.bodies[gt[0]]['line']}
     binc = ctx.mirq('all')['crates']['typeshare#bin']
-    reader_fns = sorted({h['fn'] for h in binc['hir_fields'] if h.get('field') == 'errors' and h.get('owner', '').endswith('parser::ParsedData') and not h.get('exp')})
+    reader_fns = sorted({re.sub(r'(::\{closure#\d+\})+$', '', h['fn']) for h in binc['hir_fields'] if h.get('field') == 'errors' and h.get('owner', '').endswith('parser::ParsedData') and not h.get('exp')})
     reader_keys = {k for k, bd in prog.bodies.items() if prog.crate_of[k] == 'typeshare#bin' and bd['kind'] != 'closure' and bd['id'] in reader_fns}
 
     def _writes(k):
